@@ -388,3 +388,54 @@ def r7(cx):
         cx.check(ok, "txn_guard is released only after the pipeline commit was awaited", "guard-released-early", cb.where(r),
                  "Transaction::commit releases its active-transaction registration before Core::commit has run: "
                  "the oracle may prune the window of a transaction that is still validating")
+
+
+@rule("C04", "C04.R8", "a restore turns away every transaction that began before it")
+def r8(cx):
+    """The documented retry case: after `restore_from_checkpoint` a transaction of the discarded timeline must get
+    TransactionRetry.  The only test `check` has is `start_seq < kept_since`, and the restore REWINDS the sequence counter
+    to the checkpoint's: live transactions hold start sequences ABOVE the restored maximum, pass that test, and the
+    post-restore commits carry sequence numbers below their start, so the write-write check finds nothing either -- the
+    stale transaction commits over keys written after it began.  Decided: the floor handed to the oracle at a restore is
+    not below what live transactions may hold (it derives from the live sequence counters, not only from the restored
+    files), or `check` consults state that `reset_for_restore` changes besides the window (a generation)."""
+    f = cx.f
+    b = f.body("Tree::restore_from_checkpoint")
+    rs = sites(cx, b, ["CommitPipeline::reset_oracle_for_restore"], minimum=1)
+    live = {"get_visible_seq_num", "seq_num", "last_allocated_seq_num", "get_log_seq_num", "load"}
+    ok = False
+    for c in rs:
+        o = origin_of_operand(b, c.args[1], through_calls="all")
+        srcs = {x.primary.split("::")[-1] for x in o.calls}
+        from_live = bool(srcs & live) and any(x.primary.split("::")[-1] in live and ("CommitPipeline" in x.primary or "Core::" in x.primary or "Atomic" in x.primary) for x in o.calls)
+        ok = ok or from_live
+    if not ok:
+        # a generation: a field written by reset_for_restore and read by check, other than the window itself
+        rb, ck = f.body("CommitOracle::reset_for_restore"), f.body("CommitOracle::check")
+        from .common import self_field_sites
+        wr = set()
+        for i, j, lhs, rv, line in rb.assigns():
+            for p in lhs[1:]:
+                if isinstance(p, list) and p[0] == "f":
+                    wr.add(p[2])
+        rd = set()
+        for i, j, lhs, rv, line in ck.assigns():
+            from ..core import rvalue_places
+            for pl in rvalue_places(rv):
+                for p in pl[1:]:
+                    if isinstance(p, list) and p[0] == "f":
+                        rd.add(p[2])
+        gen = (wr & rd) - {"kept_since", "recent_writes", "displaced", "commits_since_gc", "last_gc_oldest_active", "inner", "data", "0"}
+        ok = bool(gen) and ck.argc >= 4
+    cx.check(ok, "the restore's oracle floor covers the start sequences of live transactions", "restore-window-misses-live-transactions", rs[0].where(),
+             "restore_from_checkpoint resets the oracle with a floor computed from the restored files only (manifest last_sequence / replayed WAL): a transaction that began "
+             "before the restore holds a start sequence above it, passes `start_seq < kept_since`, and -- the counter having been rewound -- sees no conflict with the "
+             "post-restore commits: it commits over keys written after it began (documented retry case not enforced)")
+    # the counter handed to set_seq_num and the floor are the same value
+    ss = sites(cx, b, ["CommitPipeline::set_seq_num"], minimum=1)
+    same = any(origin_of_operand(b, s.args[1]).calls == origin_of_operand(b, c.args[1]).calls and s.args[1] == c.args[1] or
+               {id(x) for x in origin_of_operand(b, s.args[1], through_calls="all").calls} == {id(x) for x in origin_of_operand(b, c.args[1], through_calls="all").calls}
+               for s in ss for c in rs)
+    cx.check(same, "the sequence counter restarts at the oracle's floor", "restore-window-vs-counter", ss[0].where(),
+             "restore_from_checkpoint restarts the sequence counter and the oracle window from different values: new transactions start below the window (spurious retry) "
+             "or the window starts below the counter (commits in between are not recorded)")
